@@ -697,7 +697,7 @@ impl<'a, W: Write> DocumentPrinter<'a, W> {
         self.newline()?;
         self.inc();
 
-        for arg in &expr.arguments {
+        for (i, arg) in expr.arguments.iter().enumerate() {
             self.indent()?;
 
             match arg {
@@ -719,7 +719,14 @@ impl<'a, W: Write> DocumentPrinter<'a, W> {
                     self.expr(&arg.expr)?;
                     write!(self.writer, ",")?;
                 }
-                InstantiationArgument::Fill(_) => write!(self.writer, "...")?,
+                InstantiationArgument::Fill(_) => {
+                    write!(self.writer, "...")?;
+                    // A fill that is not the last argument must be separated from
+                    // the next one, otherwise it would read as a spread argument.
+                    if i + 1 < expr.arguments.len() {
+                        write!(self.writer, ",")?;
+                    }
+                }
             }
 
             self.newline()?;
